@@ -4,18 +4,26 @@
 (* the check compares the two).                                                                                 *)
 (* A path is a sequence of component names from the root of the scratch tree; a node is                          *)
 (*   [k |-> "dir"] | [k |-> "file", tag |-> n] | [k |-> "link", to |-> path]      (links have absolute targets)      *)
+(*   [k |-> "fifo", tag |-> n]  named pipe: open() succeeds once a writer shows up, read() yields the writer's bytes  *)
+(*                              (the driver's helper writes "TAG:<n>"), never the bytes of a regular file             *)
+(*   [k |-> "sock"]             unix socket: open() fails (ENXIO)                                                     *)
+(*   [k |-> "dev"]              character device (/dev/null, reached through a link): open() succeeds, no bytes       *)
 (* Every regular file has a unique content tag; tag 99 is the secret outside every root.                          *)
 EXTENDS Integers, Sequences, FiniteSets, TLC
 
 D == [k |-> "dir", tag |-> 0, to |-> <<>>]
 F(n) == [k |-> "file", tag |-> n, to |-> <<>>]
 L(p) == [k |-> "link", tag |-> 0, to |-> p]
+P(n) == [k |-> "fifo", tag |-> n, to |-> <<>>]
+S == [k |-> "sock", tag |-> 0, to |-> <<>>]
+V == [k |-> "dev", tag |-> 0, to |-> <<>>]
 
 Secret == <<"secret">>
 FS0 ==
     ( <<>> :> D ) @@
     ( <<"secret">> :> F(99) ) @@
     ( <<"outdir">> :> D ) @@ ( <<"outdir", "a">> :> F(98) ) @@
+    ( <<"dev">> :> D ) @@ ( <<"dev", "null">> :> V ) @@            \* the machine's /dev/null (not part of the scratch tree)
     ( <<"site">> :> D ) @@
     ( <<"site", "static">> :> D ) @@
     ( <<"site", "static", "a">> :> F(1) ) @@
@@ -29,6 +37,10 @@ FS0 ==
     ( <<"site", "static", "dlink_out">> :> L(<<"outdir">>) ) @@
     ( <<"site", "static", "dlink_sib">> :> L(<<"site", "static2">>) ) @@
     ( <<"site", "static", "link_x">> :> L(<<"site", "templates", "a">>) ) @@
+    ( <<"site", "static", "pipe">> :> P(97) ) @@
+    ( <<"site", "static", "link_pipe">> :> L(<<"site", "static", "pipe">>) ) @@
+    ( <<"site", "static", "sock">> :> S ) @@
+    ( <<"site", "static", "link_null">> :> L(<<"dev", "null">>) ) @@
     ( <<"site", "static2">> :> D ) @@ ( <<"site", "static2", "a">> :> F(96) ) @@
     ( <<"site", "templates">> :> D ) @@
     ( <<"site", "templates", "a">> :> F(11) ) @@
@@ -40,6 +52,10 @@ FS0 ==
     ( <<"site", "templates", "dlink_out">> :> L(<<"outdir">>) ) @@
     ( <<"site", "templates", "dlink_sib">> :> L(<<"site", "templates2">>) ) @@
     ( <<"site", "templates", "link_x">> :> L(<<"site", "static", "a">>) ) @@
+    ( <<"site", "templates", "pipe">> :> P(94) ) @@
+    ( <<"site", "templates", "link_pipe">> :> L(<<"site", "templates", "pipe">>) ) @@
+    ( <<"site", "templates", "sock">> :> S ) @@
+    ( <<"site", "templates", "link_null">> :> L(<<"dev", "null">>) ) @@
     ( <<"site", "templates2">> :> D ) @@ ( <<"site", "templates2", "a">> :> F(95) )
 
 Modes == {"fs_cached", "fs_perreq", "embedded_ext", "templates"}
@@ -49,8 +65,18 @@ IsUnder(base, p) == Len(p) >= Len(base) /\ SubSeq(p, 1, Len(base)) = base
 Front(p) == SubSeq(p, 1, Len(p) - 1)
 Last(p) == p[Len(p)]
 
-\* the tags a lookup in `mode` may return: regular files whose location is inside the root of the mode
-InsideTags(mode) == {FS0[p].tag : p \in {x \in DOMAIN FS0 : FS0[x].k = "file" /\ IsUnder(RootOf(mode), x) /\ x # RootOf(mode)}}
+\* the tags a lookup in `mode` may return while the tree is `fs`: regular files whose location is inside the root of the mode
+InsideTagsOf(fs, mode) == {fs[p].tag : p \in {x \in DOMAIN fs : fs[x].k = "file" /\ IsUnder(RootOf(mode), x) /\ x # RootOf(mode)}}
+InsideTags(mode) == InsideTagsOf(FS0, mode)
+
+\* ---- changes of the tree between two lookups of a history ---------------------------------------------------
+\* the intermediate directory <root>/dir is moved away (out of every root) and a symbolic link to the outside directory
+\* takes its name; DirBack undoes it.  Every name that went through <root>/dir now leads outside.
+SwapDir(mode) == Append(RootOf(mode), "dir")
+DirOut(fs, mode) == LET d == SwapDir(mode) IN
+                    [p \in {q \in DOMAIN fs : ~(IsUnder(d, q) /\ q # d)} |-> IF p = d THEN L(<<"outdir">>) ELSE fs[p]]
+DirBack(fs, mode) == LET d == SwapDir(mode) IN
+                     [p \in DOMAIN fs \cup {q \in DOMAIN FS0 : IsUnder(d, q)} |-> IF IsUnder(d, p) THEN FS0[p] ELSE fs[p]]
 
 \* ---- POSIX resolution (stat semantics: the final component is followed) --------------------------------------
 Err == <<"!">>
